@@ -252,6 +252,16 @@ func c17Families(thorough bool) []c17Member {
 		sb.WriteString("\t}\n\treturn t\n}\n")
 		out = append(out, c17Member{"inner-loops-bounded-by-a-doubling-dag", n, sb.String(), ""})
 	}
+	// F6c: one 64 KB literal assigned many times
+	for _, n := range []int{10, 100, 1000} {
+		var sb strings.Builder
+		sb.WriteString(hdr + "var sinkS string\n\nconst blob = \"" + strings.Repeat("Q", 64<<10) + "\"\n\nfunc F(a int) int {\n")
+		for i := 0; i < n; i++ {
+			sb.WriteString("\tsinkS = blob\n")
+		}
+		sb.WriteString("\treturn a\n}\n")
+		out = append(out, c17Member{"one-64k-literal-assigned-many-times", n, sb.String(), ""})
+	}
 	// F6b: ONE long literal used by many calls of one function (what is kept of it counts every time)
 	for _, n := range []int{10, 40, 400, 3000} {
 		var sb strings.Builder
@@ -320,6 +330,7 @@ func TestVerifC17(t *testing.T) {
 		return nil, 0, fmt.Errorf("F not found")
 	}
 	prevAlloc := map[string][2]int64{}
+	prevInstrs := map[string]int{}
 	prev := map[string]c17Counters{}
 	prevN := map[string]int{}
 	// the watchdog: a counter beyond its hard cap ends the run with a violation
@@ -428,8 +439,11 @@ func TestVerifC17(t *testing.T) {
 		curKey.Store(key)
 		rp := map[string]interface{}{"member": key}
 		var panicked interface{}
+		var keepAllIRBytes int64
 		func() {
 			defer func() { panicked = recover() }()
+			// the rendering with every literal kept (what a tie between rename candidates is settled by)
+			keepAllIRBytes = int64(len(GenerateFingerprint(oldFn, ir.KeepAllLiteralsPolicy, false).CanonicalIR))
 			res := GenerateFingerprint(oldFn, ir.DefaultLiteralPolicy, false)
 			if len(oldFn.Blocks) > MaxFunctionBlocks && res.Fingerprint != "OVERSIZED" {
 				r.Violate("oversize/"+key, fmt.Sprintf("%s: function with %d blocks (> %d) was processed instead of rejected", key, len(oldFn.Blocks), MaxFunctionBlocks), rp)
@@ -494,21 +508,31 @@ func TestVerifC17(t *testing.T) {
 		// the canonical IR itself: every symbolic text in it is capped, so its size stays within a
 		// (generous) constant multiple of the source
 		if irBytes := lastIRBytes; m.new == "" || true {
-			if lim := int64(512<<10) + 400*int64(len(m.old)); irBytes > lim {
+			lim := int64(512<<10) + 400*int64(len(m.old))
+			if irBytes > lim {
 				r.Violate("ir-size/"+key, fmt.Sprintf("%s: the canonical IR of F is %d bytes for %d bytes of source (bound 512 KiB + 400 x source = %d): a text that the documented size guard should have capped was written in full", key, irBytes, len(m.old), lim), rp)
 			}
 			r.Count("measured:"+key+":ir_bytes", irBytes)
+			if keepAllIRBytes > lim {
+				r.Violate("ir-size-keepall/"+key, fmt.Sprintf("%s: with every literal kept the canonical IR of F is %d bytes for %d bytes of source (bound 512 KiB + 400 x source = %d)", key, keepAllIRBytes, len(m.old), lim), rp)
+			}
 		}
 		// memory allocated while loading + building + fingerprinting the member (work no counter
 		// sees: the SSA builder, the type checker): between consecutive sizes of a family it may grow
 		// at most with the cube of the source size (x1.5 slack); below 4 MB fixed costs dominate
 		if pa, ok := prevAlloc[m.family]; ok && pa[0] >= 4<<20 && len(m.old) > int(pa[1]) {
 			sizeRatio := float64(len(m.old)) / float64(pa[1])
+			// (size = source bytes or instructions, whichever grew more: a source dominated by one
+			// big constant grows little while the function grows tenfold)
+			if pi := prevInstrs[m.family]; pi > 0 && float64(instrs)/float64(pi) > sizeRatio {
+				sizeRatio = float64(instrs) / float64(pi)
+			}
 			if lim := sizeRatio * sizeRatio * sizeRatio * 1.5; float64(loadAlloc) > float64(pa[0])*lim {
 				r.Violate("alloc-growth/"+key, fmt.Sprintf("%s: analysing the source allocated %.1f MB for %d bytes of source; the previous member of the family allocated %.1f MB for %d bytes: factor %.1f for a size factor %.2f (cubic growth would allow %.1f)", key, float64(loadAlloc)/1e6, len(m.old), float64(pa[0])/1e6, pa[1], float64(loadAlloc)/float64(pa[0]), sizeRatio, lim), rp)
 			}
 		}
 		prevAlloc[m.family] = [2]int64{loadAlloc, int64(len(m.old))}
+		prevInstrs[m.family] = instrs
 		prev[m.family], prevN[m.family] = d, m.n
 		r.Sample(map[string]interface{}{"member": key, "instructions": instrs, "blocks": len(oldFn.Blocks), "loops": loops, "equivalence_comparisons": d.equiv, "scev_evaluations": d.scev, "renamer_invocations": d.renamer})
 		r.Count("measured:"+key+":equiv", d.equiv)
